@@ -38,7 +38,7 @@ class EEMSRead(Command):
     def execute(self, **kwargs):
         path = kwargs["InFileName"]
         variable_name = kwargs["InFieldName"]
-        data_type = kwargs.get("DataType", "Float")
+        data_type = kwargs.get("DataType", numpy.float64)
 
         with Dataset(kwargs["InFileName"], "r") as dataset:
             if kwargs["InFieldName"] not in dataset.variables:
